@@ -105,10 +105,25 @@ Section LibProofs.
 
   Theorem muldiv_correct k m a b c :
     is_fixed k = true -> n_in_range k a -> n_in_range k b -> n_in_range k c ->
+    ~ fmd_edge k a b c ->
     muldiv_model lib_fmd k m a b c = spec_muldiv k m a b c.
   Proof.
-    intros Hk Ha Hb Hc. unfold muldiv_model. rewrite Hfmd by assumption. apply handle_fmd. assumption.
+    intros Hk Ha Hb Hc He. unfold muldiv_model. rewrite Hfmd by assumption. apply handle_fmd. assumption.
   Qed.
+
+  (* 1.0 reduces to a 64-bit divisor: multiplication never meets the library's division edge case *)
+  Lemma scale_safe k : is_fixed k = true -> safe_divisor (scale k).
+  Proof.
+    destruct k; try discriminate; intros _.
+    - exists 8. split; [lia|]. split; [exists 390625; reflexivity|vm_compute; reflexivity].
+    - exists 8. split; [lia|]. split; [exists 390625; reflexivity|vm_compute; reflexivity].
+    - exists 24. split; [lia|]. split; [exists 59604644775390625; reflexivity|vm_compute; reflexivity].
+    - exists 24. split; [lia|]. split; [exists 59604644775390625; reflexivity|vm_compute; reflexivity].
+  Qed.
+  Lemma mul_not_edge k a b : is_fixed k = true -> ~ fmd_edge k a b (scale k).
+  Proof. intros Hk [_ [H _]]. apply H. apply scale_safe. assumption. Qed.
+
+  Definition div_edge (k : nkind) (op : fop) (a b : Z) : Prop := op = FDiv /\ fmd_edge k a (scale k) b.
 
   Lemma k128_fixed k : k = NFix128 \/ k = NUFix128 -> is_fixed k = true.
   Proof. intros [->| ->]; reflexivity. Qed.
@@ -121,7 +136,7 @@ Section LibProofs.
   (* the library call of each operator, as a flagged exact result (b <> 0 for division) *)
   Lemma lib_op_flagged k op a b :
     (k = NFix128 \/ k = NUFix128) -> n_in_range k a -> n_in_range k b ->
-    (op = FDiv -> b <> 0) ->
+    (op = FDiv -> b <> 0) -> ~ div_edge k op a b ->
     exists f,
     match op with
     | FAdd => lib_add k a b
@@ -137,13 +152,13 @@ Section LibProofs.
      | FDiv => lib_div lib_fmd k a b RTowardZero
      end = (0, None)).
   Proof.
-    intros Hk Ha Hb Hdiv. pose proof (k128_fixed k Hk) as Hf.
+    intros Hk Ha Hb Hdiv Hedge. pose proof (k128_fixed k Hk) as Hf.
     destruct (scale_in_range k Hf) as [Hs Hs0].
     destruct (Hasm k a b Hk Ha Hb) as [A [S M]].
     destruct op; unfold exact_fix.
     - exists false. left. rewrite A. apply add_flagged.
     - exists false. left. rewrite S. apply sub_flagged.
-    - exists true. unfold lib_mul. rewrite Hfmd by assumption.
+    - exists true. unfold lib_mul. rewrite Hfmd by (try assumption; apply mul_not_edge; assumption).
       assert (Sg: Z.sgn (scale k) = 1 /\ Z.abs (scale k) = scale k) by (destruct Hk as [->| ->]; split; reflexivity).
       destruct Sg as [Sg Ab].
       destruct (Z.eq_dec a 0) as [->|Ha0]; [|destruct (Z.eq_dec b 0) as [->|Hb0]].
@@ -153,7 +168,10 @@ Section LibProofs.
         unfold fmd_behaviour. destruct (Z.eqb_spec (scale k) 0); [contradiction|].
         rewrite Z.eqb_refl, orb_true_r. reflexivity.
       + left. rewrite fmd_flagged by assumption. rewrite Sg, Ab, Z.mul_1_r. reflexivity.
-    - exists true. specialize (Hdiv eq_refl). unfold lib_div. rewrite Hfmd by assumption.
+    - exists true. specialize (Hdiv eq_refl). unfold lib_div.
+      assert (Hne: ~ fmd_edge k a (scale k) b).
+      { intro E. apply Hedge. split; [reflexivity|exact E]. }
+      rewrite Hfmd by assumption.
       destruct (Z.eq_dec a 0) as [->|Ha0].
       + right. split; [rewrite Z.mul_0_l; apply Z.quot_0_l; assumption|].
         unfold fmd_behaviour. destruct (Z.eqb_spec b 0); [contradiction|]. reflexivity.
@@ -161,21 +179,24 @@ Section LibProofs.
         unfold round_div. rewrite quot_sgn_abs by assumption. reflexivity.
   Qed.
 
+  Lemma zero_divisor_not_edge k a : ~ fmd_edge k a (scale k) 0.
+  Proof. intros [_ [_ H]]. simpl in H. rewrite Zdiv_0_r in H. vm_compute in H. discriminate. Qed.
+
   Theorem fix128_arith_correct k op a b :
-    (k = NFix128 \/ k = NUFix128) -> n_in_range k a -> n_in_range k b ->
+    (k = NFix128 \/ k = NUFix128) -> n_in_range k a -> n_in_range k b -> ~ div_edge k op a b ->
     fix128_arith lib_fmd lib_add lib_sub k op a b = spec_arith k op a b.
   Proof.
-    intros Hk Ha Hb. pose proof (k128_fixed k Hk) as Hf. unfold fix128_arith, spec_arith.
+    intros Hk Ha Hb Hedge. pose proof (k128_fixed k Hk) as Hf. unfold fix128_arith, spec_arith.
     assert (D: op = FDiv -> b = 0 ->
       handle_fixedpoint_error (lib_div lib_fmd k a b RTowardZero) = Err DivZero).
     { intros _ ->. unfold lib_div. destruct (scale_in_range k Hf) as [Hs _].
-      rewrite Hfmd by assumption. reflexivity. }
+      rewrite Hfmd by (try assumption; apply zero_divisor_not_edge). reflexivity. }
     assert (G: (op = FDiv -> b <> 0) -> handle_fixedpoint_error
          match op with
          | FAdd => lib_add k a b | FSub => lib_sub k a b
          | FMul => lib_mul lib_fmd k a b RTowardZero | FDiv => lib_div lib_fmd k a b RTowardZero
          end = nfit k (exact_fix k op a b)).
-    { intro Hd. destruct (lib_op_flagged k op a b Hk Ha Hb Hd) as [f [E|[Z0 E]]];
+    { intro Hd. destruct (lib_op_flagged k op a b Hk Ha Hb Hd Hedge) as [f [E|[Z0 E]]];
         rewrite E; [apply handle_flagged | rewrite Z0, nfit_zero by assumption; reflexivity]. }
     destruct op; try (apply G; discriminate).
     destruct (Z.eqb_spec b 0) as [Hz|Hz].
@@ -185,21 +206,22 @@ Section LibProofs.
 
   Theorem fix128_sat_correct k op a b :
     (k = NFix128 \/ k = NUFix128) -> sat_declared k op = true -> n_in_range k a -> n_in_range k b ->
+    ~ div_edge k op a b ->
     fix128_sat lib_fmd lib_add lib_sub k op a b = spec_sat k op a b.
   Proof.
-    intros Hk Hd Ha Hb. pose proof (k128_fixed k Hk) as Hf. unfold fix128_sat, spec_sat.
+    intros Hk Hd Ha Hb Hedge. pose proof (k128_fixed k Hk) as Hf. unfold fix128_sat, spec_sat.
     assert (Z0: nclamp k 0 = 0) by (destruct Hk as [->| ->]; reflexivity).
     assert (G: (op = FDiv -> b <> 0) -> saturation_result k
          match op with
          | FAdd => lib_add k a b | FSub => lib_sub k a b
          | FMul => lib_mul lib_fmd k a b RTowardZero | FDiv => lib_div lib_fmd k a b RTowardZero
          end = Ok (nclamp k (exact_fix k op a b))).
-    { intro Hdv. destruct (lib_op_flagged k op a b Hk Ha Hb Hdv) as [f [E|[Z1 E]]];
+    { intro Hdv. destruct (lib_op_flagged k op a b Hk Ha Hb Hdv Hedge) as [f [E|[Z1 E]]];
         rewrite E; [apply saturation_flagged; assumption | rewrite Z1, Z0; reflexivity]. }
     destruct op; try (apply G; discriminate).
     destruct (Z.eqb_spec b 0) as [Hz|Hz].
     - subst b. unfold lib_div. destruct (scale_in_range k Hf) as [Hs _].
-      rewrite Hfmd by assumption. reflexivity.
+      rewrite Hfmd by (try assumption; apply zero_divisor_not_edge). reflexivity.
     - apply G. intros _. assumption.
   Qed.
 
@@ -231,10 +253,10 @@ Section LibProofs.
 
   (* ---- all four types ---- *)
   Theorem arith_model_correct k op a b :
-    is_fixed k = true -> n_in_range k a -> n_in_range k b ->
+    is_fixed k = true -> n_in_range k a -> n_in_range k b -> ~ div_edge k op a b ->
     arith_model lib_fmd lib_add lib_sub k op a b = spec_arith k op a b.
   Proof.
-    intros Hk Ha Hb. destruct k; try discriminate; unfold arith_model.
+    intros Hk Ha Hb Hedge. destruct k; try discriminate; unfold arith_model.
     - apply fix64_arith_correct; assumption.
     - apply ufix64_arith_correct; assumption.
     - apply fix128_arith_correct; auto.
@@ -243,9 +265,10 @@ Section LibProofs.
 
   Theorem sat_model_correct k op a b :
     is_fixed k = true -> sat_declared k op = true -> n_in_range k a -> n_in_range k b ->
+    ~ div_edge k op a b ->
     sat_model lib_fmd lib_add lib_sub k op a b = spec_sat k op a b.
   Proof.
-    intros Hk Hd Ha Hb. destruct k; try discriminate; unfold sat_model.
+    intros Hk Hd Ha Hb Hedge. destruct k; try discriminate; unfold sat_model.
     - apply fix64_sat_correct; assumption.
     - apply ufix64_sat_correct; assumption.
     - apply fix128_sat_correct; auto.
@@ -288,6 +311,11 @@ Section LibProofs.
     - apply fix128_neg_partial; assumption.
   Qed.
 End LibProofs.
+
+(* the guard is trivially false for the 64-bit types and for every operator but / *)
+Lemma div_edge_only_128_div k op a b :
+  div_edge k op a b -> (k = NFix128 \/ k = NUFix128) /\ op = FDiv.
+Proof. intros [-> [H _]]. split; [exact H|reflexivity]. Qed.
 
 (* the assumed behaviour is consistent: it satisfies its own description (non-vacuity of Hlib) *)
 Lemma assumed_behaviour_satisfies :
